@@ -255,6 +255,20 @@ static void witnesses() {
 	dd_un("sqrt", D2{ INF, 0 });                                                     // sqrt(inf)
 	dd_bin("div", D2{ 0xfff0000000000000ull, 0 }, D2{ 0, 0 });                     // -inf / +0
 	dd_bin("div", D2{ 0xbff0000000000000ull, 0 }, D2{ 0, 0 });                     // -1 / 0 (not judged)
+	// the repaired special-value branches of operator/= and sqrt: every sign combination
+	{
+		const uint64_t NINF = 0xfff0000000000000ull, NZ = 0x8000000000000000ull;
+		const D2 fins[] = { D2{ 0x4000000000000000ull, 0 }, D2{ 0xc000000000000000ull, 0 }, D2{ 0, 0 }, D2{ NZ, 0 }, D2{ MAXD, 0x7c90000000000000ull - (1ull << 52) },
+			D2{ 0x8000000000000001ull, 0 }, D2{ 0x3ff0000000000000ull, 0x3c80000000000000ull } };
+		const D2 infs[] = { D2{ INF, 0 }, D2{ NINF, 0 } };
+		const D2 zeros[] = { D2{ 0, 0 }, D2{ NZ, 0 } };
+		for (const D2& a : fins) for (const D2& b : infs) dd_bin("div", a, b);             // finite / +-inf = +-0
+		for (const D2& a : infs) for (const D2& b : zeros) dd_bin("div", a, b);            // +-inf / +-0 = +-inf
+		for (const D2& a : infs) for (const D2& b : infs) dd_bin("div", a, b);             // inf / inf = NaN
+		for (const D2& a : infs) for (const D2& b : fins) dd_bin("div", a, b);             // +-inf / finite (incl. +-0)
+		for (const D2& a : fins) for (const D2& b : zeros) dd_bin("div", a, b);            // finite / +-0 (not judged; 0/0 = NaN)
+		dd_un("sqrt", D2{ INF, 0x3ff0000000000000ull });                                    // sqrt(+inf) with a stray tail
+	}
 	dd_bin("mul", D2{ 0xe50fffffffffffffull, 0 }, D2{ 0x5ad0000000000000ull, 0 }); // -(2-eps)*2^593 * 2^430 = -DBL_MAX
 	dd_bin("mul", D2{ MAXD, 0 }, D2{ 0x3fe0000000000000ull, 0 });                  // DBL_MAX * 0.5
 	dd_bin("div", D2{ MAXD, 0xfc8e2b547afe27b9ull }, D2{ MAXD, 0xfc8e2b547afe27b9ull });
